@@ -17,6 +17,7 @@ import warnings
 
 from simkit.refmodels.known_hashes import MIN_COST
 from simkit.seams import SimFS
+from simkit.refmodels.policy import merge as merge_policy
 from simkit.worlds.credstore import CATS, COSTED, INVALID_KINDS, _call, build_context
 
 PATH = "/sim/etc/passlib.ini"
@@ -160,17 +161,14 @@ class ConfigRun:
         if how == "load_update":
             return _call(cc.load, change, update=True)
         if how == "load_replace":
-            full = dict(self.cur)
-            full.update(change)
-            return _call(cc.load, full)
+            return _call(cc.load, merge_policy(self.cur, change))
         if how == "ini_text":
             return _call(cc.load, render_ini(change), update=True)
         raise AssertionError(how)
 
     def merged(self, change):
-        full = dict(self.cur)
-        full.update(change)
-        return full
+        # (a new value replaces whatever spelling of the same slot the configuration held: 'vary_rounds' / 'all__vary_rounds')
+        return merge_policy(self.cur, change)
 
     def attempt(self):
         self.ctx.log("attempt", self.attempts, self.cheap(self.cc)["to_string"])
